@@ -25,15 +25,16 @@ def same_float(a, b):
     return (a != a and b != b) or a == b
 
 
-def ob_init_agent(names, n_obj, f_kind="real"):
+def ob_init_agent(names, n_obj, f_kind="real", as_list=False):
     def f():
         with env():
             vs_a, vs_b = build_vars(names), build_vars(names)
             decls = leaf_decls(vs_a)
             F = [{"real": sym.real, "any": sym.any_float}[f_kind](f"F{j}") for j in range(n_obj)]
-            w = [sym.real(f"w{j}", lo=0.0) for j in range(n_obj)] if n_obj > 1 else None
-            fa = (lambda x, i: list(F)) if n_obj > 1 else (lambda x, i: F[0])
-            fb = (lambda x, i: [-v for v in F]) if n_obj > 1 else (lambda x, i: -F[0])
+            multi = n_obj > 1 or as_list          # as_list: a one-element objective list with one weight
+            w = [sym.real(f"w{j}", lo=0.0) for j in range(n_obj)] if multi else None
+            fa = (lambda x, i: list(F)) if multi else (lambda x, i: F[0])
+            fb = (lambda x, i: [-v for v in F]) if multi else (lambda x, i: -F[0])
             ta = make_task(vs_a, fa, minmax=MAX, weights=w)
             tb = make_task(vs_b, fb, minmax=MIN, weights=w)
             x = sym_candidate(decls)
@@ -130,6 +131,8 @@ def obligations(tier):
     for names in (("C",), ("C", "D3"), ("P3",)):
         for k in (1, 2):
             obs.append(Ob(f"init_agent[{'+'.join(names)},k={k}]", ob_init_agent(names, k), 300))
+    obs.append(Ob("init_agent[C,k=1,one-element-list]", ob_init_agent(("C",), 1, as_list=True), 300))
+    obs.append(Ob("init_agent[C+D3,k=3]", ob_init_agent(("C", "D3"), 3), 300))
     # objective values of every float kind: finite, +inf, -inf, NaN (sqrt / log outside their domain)
     obs.append(Ob("init_agent[C,k=1,any-objective-value]", ob_init_agent(("C",), 1, "any"), 300))
     for rule in ("greedy", "extend_trim", "tracked"):
